@@ -5,7 +5,7 @@ from __future__ import annotations
 import ast
 
 from .common import *  # noqa: F401,F403
-from .common import SVC, MOD, CANCEL, AnalysisError, Ctx, Facts, Registry, U, Unit, await_coro, call_name, handler_type_names, own_nodes, parent, q, where
+from .common import SVC, MOD, CANCEL, AnalysisError, Ctx, Facts, Registry, U, Unit, await_coro, call_name, fmt_path, handler_type_names, own_nodes, parent, q, where
 from .c01 import dequeue_sites
 
 ob = Registry()
@@ -146,14 +146,49 @@ def awaits_just_cancelled_task(arm: ast.ExceptHandler) -> bool:
     return True
 
 
-@ob('C16.3', 'ESC', 'cancellation is not swallowed in the run loop\'s call tree: every arm that can catch CancelledError re-raises on all paths, except the outermost arm '
-    'of _run_loop (outside its while: ends the task) and arms awaiting a task the same function has just cancelled')
+def runloop_cancel_guard(c: Ctx) -> tuple[bool, list[str]]:
+    """Does every iteration of the run loop's `while` re-check `current_task().cancelling()` and leave the loop when it is set?"""
+    rl = c.unit(SVC, 'EventBus._run_loop')
+    g = c.cfg(rl)
+    whiles = [n for n in g.live_nodes() if n.kind == 'while' and '_is_running' in U(n.ast.test)]
+    if len(whiles) != 1:
+        return False, [f'{len(whiles)} `while self._is_running` loops in _run_loop']
+    head = whiles[0]
+    loop = head.ast
+    # names bound to asyncio.current_task()
+    tasks = {U(n.targets[0]) for n in own_nodes(rl.node) if isinstance(n, ast.Assign) and isinstance(n.value, ast.Call) and U(n.value.func) in ('asyncio.current_task', 'current_task')}
+    guards = []
+    for n in g.live_nodes():
+        if n.kind == 'if' and q.lexically_in(n.ast, loop, 'body') and any(isinstance(x, ast.Call) and call_name(x) == 'cancelling' and isinstance(x.func, ast.Attribute) and (U(x.func.value) in tasks or 'current_task()' in U(x.func.value)) for x in ast.walk(n.ast.test)):
+            leaves = any(isinstance(b, (ast.Break, ast.Return, ast.Raise)) for b in n.ast.body)
+            conj = n.ast.test.values if isinstance(n.ast.test, ast.BoolOp) and isinstance(n.ast.test.op, ast.And) else [n.ast.test]
+            simple = all(any(isinstance(x, ast.Call) and call_name(x) == 'cancelling' for x in ast.walk(v)) or U(v) in {f'{t} is not None' for t in tasks} | set(tasks) for v in conj)
+            if leaves and simple:
+                guards.append(n)
+    if not guards:
+        return False, ['the run loop never re-checks current_task().cancelling()']
+    gid = {n.id for n in guards}
+    from sa.cfg import search
+
+    # every way back to the loop head (normal completion of an iteration, or after a contained exception) passes the guard
+    p = search([(head, ())], is_target=lambda n, d: n is head, is_barrier=lambda n, d: n.id in gid,
+               edge_ok=lambda n, e, d: None if (n is head and e.label != 'true') else d)
+    if p is not None:
+        return False, ['an iteration of the run loop can start over without re-checking current_task().cancelling()'] + fmt_path(head, p)
+    return True, []
+
+
+@ob('C16.3', 'ESC', 'cancellation cannot be lost in the run loop\'s call tree: every arm that can catch CancelledError re-raises on all paths (the outermost arm of _run_loop, '
+    'outside its while, ends the task) — or, for arms that absorb it, the run loop re-checks current_task().cancelling() on every iteration and leaves the loop')
 def c16_3(c: Ctx) -> None:
     rl = c.unit(SVC, 'EventBus._run_loop')
     reach = dict(c.cg.reach([rl]))
     for extra in (await_coro(c), c.unit(SVC, 'CleanShutdownQueue.get')):
         reach[extra.key] = extra
     H = c.an.fm.h
+    guard_ok, why = runloop_cancel_guard(c)
+    if guard_ok:
+        c.ok(where(rl), 'every iteration of the run loop re-checks current_task().cancelling() and breaks: an absorbed cancellation still ends the loop within one step')
     n_arms = 0
     for u in reach.values():
         if u.module == 'bubus/logging.py':
@@ -169,12 +204,14 @@ def c16_3(c: Ctx) -> None:
             in_loop = any(isinstance(a, (ast.While, ast.For, ast.AsyncFor)) for a in q.ancestors_of(arm))
             if u.key == rl.key and not in_loop:
                 c.ok(where(u, arm), 'outermost arm of _run_loop: catches the cancellation and ends the task (outside the while)')
-            elif awaits_just_cancelled_task(arm):
-                c.ok(where(u, arm), 'arm absorbs the CancelledError of a task this function has just cancelled')
             elif not c.an.cfg(u).nodes_of(arm, ('except',)):
                 c.ok(where(u, arm), 'arm unreachable for CancelledError')
+            elif guard_ok:
+                c.ok(where(u, arm), 'arm can absorb a CancelledError, but the run loop re-checks current_task().cancelling() after the step')
             else:
-                c.fail(u, f'except {U(arm.type) if arm.type else "<bare>"} swallows CancelledError', 'cancelling the run-loop task (asyncio.run() teardown, stop()) only interrupts one step; the loop carries on and the program cannot exit', node=arm, witness=w)
+                what = 'awaits a helper task it has just cancelled: a cancellation of the run loop task arriving there is indistinguishable and swallowed' if awaits_just_cancelled_task(arm) else 'swallows CancelledError'
+                c.fail(u, f'except {U(arm.type) if arm.type else "<bare>"} {("absorbs CancelledError after cancelling its helper task" if awaits_just_cancelled_task(arm) else "swallows CancelledError")}, and {why[0]}',
+                       f'cancelling the run-loop task (asyncio.run() teardown, stop()) can be lost ({what}); the loop carries on and the program cannot exit', node=arm, witness=w + why[1:])
     c.floor(n_arms, 4, 'arms that can catch CancelledError in the run loop call tree')
 
 
